@@ -86,10 +86,11 @@ macro_rules! dist {
 }
 //@begin prop=C17 tier=quick mem=8 timeout=1500 desc="D: residue0(e) not in {0, T xor T'} for every 1- and 2-symbol error pattern within N=40 symbols of the end (positions and symbols symbolic), real engine and generator constants"
 dist!(distance_blech32_40, Blech32, Blech32m, 40, 42);
-dist!(distance_blech32_256, Blech32, Blech32m, 256, 258); //@ timeout=2400 mem=12
+dist!(distance_blech32_96, Blech32, Blech32m, 96, 98); //@ timeout=2400 mem=12
 //@end
 //@begin prop=C17 tier=thorough mem=16 timeout=7200 desc="D for larger windows"
-dist!(distance_blech32_128, Blech32, Blech32m, 128, 130);
+dist!(distance_blech32_140, Blech32, Blech32m, 140, 142);
+dist!(distance_blech32_256, Blech32, Blech32m, 256, 258);
 dist!(distance_blech32_512, Blech32, Blech32m, 512, 514);
 dist!(distance_blech32_1023, Blech32, Blech32m, 1023, 1026);
 //@end
